@@ -9,6 +9,7 @@ modelled and tied to the code by correspondence; no soundness theorem is claimed
 -/
 import RsassModel.Sel.ExtendLemmas
 import RsassModel.Sel.UnifyLemmas
+import RsassModel.Sel.UnifyComplex
 import RsassModel.Theorems.C23
 namespace C24
 open Sel
@@ -169,6 +170,51 @@ theorem unify_sound_complex_compound (k : Rel) (s : Selector) (ca b : Compound)
       · simp only [List.mem_singleton] at hc; subst hc
         have hs := compound_unify_sound b ca u hpe.symm h2 h1 hwb hwa hu
         exact key u hs.2 hs.1
+
+/-! ### complex ∪ complex: `inner_unify` / `unify_relbox` / `with_rel_of` -/
+
+/-- the compound-level facts the induction of Sel/UnifyComplex.lean rests on -/
+theorem cfacts : CFacts where
+  refl := fun x => Compound.isSuperG_refl (fun a _ => Attr.isSuper_refl superSpec a)
+    (fun p _ => pseudo_refl superSpec p)
+  unify := fun a b c ha hb h => by
+    have one : ∀ x : Compound, x.pseudoElement = none → x.onePe := by
+      intro x hx p hp hpe
+      have := List.find?_eq_none.1 hx p hp
+      simp [hpe] at this
+    exact compound_unify_sound a b c (by rw [ha.1, hb.1]) (one a ha.1) (one b hb.1) ha.2 hb.2 h
+
+/-- **Soundness of `Selector::unify` for two complex selectors** (specification configuration:
+`combine_vital` as repaired by ac1584f, `>` arm looking through sibling combinators), all 16
+relation pairs of `unify_relbox`, any chain lengths: every selector produced has both inputs
+as superselectors.  `Inv` = the compounds carry no pseudo-element and element types have at
+most one `|`.  Under the strict `>` arm of the code (open finding C24-super-parent-strict) the
+statement is false — `unify_asis_parent_strict_refuted` — exactly in the arms that put a
+sibling link in front of a `>` link (`link_par_deep`). -/
+theorem unify_sound_complex (a b : Selector) (ha : Inv a) (hb : Inv b) (u : Selector)
+    (hu : u ∈ Selector.unify unifySpec a b) :
+    Selector.isSuperF superSpec a u = true ∧ Selector.isSuperF superSpec b u = true :=
+  (sound_all cfacts _).2.1 a b ha hb u hu
+
+/-- **The property's law for `selector.unify` on lists of complex selectors** (specification
+configuration): every complex selector of `selector.unify(A, B)` has `A` and `B` as
+superselectors in the sense of `selector.is-superselector`. -/
+theorem unify_sound_lists (A B : SelSet) (hA : ∀ a ∈ A, Inv a) (hB : ∀ b ∈ B, Inv b)
+    (c : Selector) (hc : c ∈ SelSet.unify unifySpec A B) :
+    SelSet.isSuper superSpec A [c] = true ∧ SelSet.isSuper superSpec B [c] = true := by
+  simp only [SelSet.unify, SelSet.unifyW, List.mem_flatMap] at hc
+  obtain ⟨a, ha, b, hb, hc⟩ := hc
+  have hs := unify_sound_complex a b (hA a ha) (hB b hb) c hc
+  rw [← isSuper_singleton, ← isSuper_singleton] at hs
+  exact ⟨C23.super_trans _ [a] _ (C23.set_super_member superSpec _ a ha) hs.1,
+    C23.super_trans _ [b] _ (C23.set_super_member superSpec _ b hb) hs.2⟩
+
+-- the hypotheses are met by non-trivial inputs: `.a > .b ~ c` and `.d + e.f` (Inv is decidable
+-- compound by compound; here by unfolding)
+example : Inv (.rel .sibling (.rel .parent (.leaf (Compound.ofClass "a")) (Compound.ofClass "b")) (Compound.ofElem "c")) := by
+  intro c hc
+  simp only [Selector.compounds, List.mem_cons, List.not_mem_nil, or_false] at hc
+  rcases hc with rfl | rfl | rfl <;> exact ⟨by decide, by intro e h; simp [Compound.ofElem, Compound.ofClass, Compound.elem] at h; try (subst h; decide)⟩
 
 /-- `:is(<classes>)` as a compound -/
 def isOf (cs : List String) : Compound :=
